@@ -112,7 +112,8 @@ func VH_C01_TopUps() {
 			}
 		}
 		if who == n {
-			verifrt.Assert(op == 1 && len(ps) == n+1 && ps[n].PlayerID == id && ps[n].Bankroll == amount, "buy-in brings exactly the amount")
+			k := te.table.FindPlayerIdx(id)
+			verifrt.Assert(op == 1 && len(ps) == n+1 && k >= 0 && ps[k].Bankroll == amount, "buy-in brings exactly the amount")
 		} else {
 			verifrt.Assert(len(ps) == n, "top-up of a seated player adds nobody")
 		}
